@@ -11,6 +11,7 @@ package openflow13
 import (
 	"encoding/binary"
 	"errors"
+	"fmt"
 	"net"
 
 	"github.com/contiv/libOpenflow/common"
@@ -99,6 +100,13 @@ const (
 )
 
 func Parse(b []byte) (message util.Message, err error) {
+	defer func() {
+		// a truncated or otherwise malformed frame must yield an error, not take the process down
+		if r := recover(); r != nil {
+			message = nil
+			err = fmt.Errorf("malformed OpenFlow message: %v", r)
+		}
+	}()
 	switch b[1] {
 	case Type_Hello:
 		message = new(common.Hello)
